@@ -2,8 +2,30 @@
 COMMON_ASSUME = [
     'Go semantics of the modelled fragment and of the standard library functions named in DESIGN.md section 9 are modelled, not verified',
 ]
+GOV_TB = ['translator reading of Validate/fieldInclusion/verify into GoV programs (translator/gov.go), tied by streams l2-tags / l3-validate (exact error labels compared)',
+          'GoV semantics (Model/GoV.v) and the validator primitives (Model/Validators.v)']
+VERIFY_DEPS = ['theories/Theory/VerifyFacts.v', 'theories/Theory/VerifyProps.v', 'theories/Theory/DLFacts.v', 'theories/Model/DL.v',
+               'theories/Model/GoV.v', 'theories/Spec/Rules.v', 'gen/Tags.v', 'gen/Verify.v']
 
 PROPS = {
+    'C05': {
+        'props': ['theories/Props/C05.v'], 'deps': VERIF_DEPS if False else VERIFY_DEPS,
+        'streams': ['l3-validate'],
+        'trusted_base': GOV_TB + ['Spec/Rules.v: the documented edit rules as reject cubes (DESIGN.md appendix A)'],
+        'assumptions': COMMON_ASSUME + ['the unspecified region listed in Spec/Rules.v (unspecified) carries no rule on either side'],
+    },
+    'C06': {
+        'props': ['theories/Props/C06.v'], 'deps': VERIFY_DEPS + ['theories/Theory/WriterFacts.v', 'theories/Model/Writer.v', 'gen/Writer.v'],
+        'streams': ['l3-write'],
+        'trusted_base': GOV_TB + ['translator reading of writer.go (emission plan, mandatory checks, Write/epilogue shape)', 'bufio.Writer: the destination is reached only by the final flush (modelled)'],
+        'assumptions': COMMON_ASSUME,
+    },
+    'C10': {
+        'props': ['theories/Props/C10.v'], 'deps': VERIFY_DEPS,
+        'streams': ['l3-validate', 'l2-tags'],
+        'trusted_base': GOV_TB,
+        'assumptions': COMMON_ASSUME,
+    },
     'C11': {
         'props': ['theories/Props/C11.v'],
         'deps': ['theories/Theory/ValidatorsFacts.v', 'theories/Theory/BytesFacts.v', 'theories/Model/Validators.v',
@@ -14,5 +36,17 @@ PROPS = {
                          'Spec/Faim.v: FAIM character set, published code lists, date and identifier shapes (my reading of the documentation)',
                          'golang.org/x/text/currency table as ISO 4217 oracle'],
         'assumptions': COMMON_ASSUME + ['regexp matches invalid UTF-8 bytes as U+FFFD (outside every ASCII class); exercised by the stream on all 256 bytes and all code points'],
+    },
+    'C12': {
+        'props': ['theories/Props/C12.v'], 'deps': VERIFY_DEPS + ['theories/Theory/WriterFacts.v'],
+        'streams': ['l3-validate', 'l3-write'],
+        'trusted_base': GOV_TB + ['Spec/Rules.v option_rules'],
+        'assumptions': COMMON_ASSUME + ['route agreement (reader presets, JSON, HTTP query) is covered by the streams of C04/C14/C17, not by these theorems'],
+    },
+    'C19': {
+        'props': ['theories/Props/C19.v'], 'deps': VERIFY_DEPS,
+        'streams': ['l3-validate', 'l3-write'],
+        'trusted_base': GOV_TB,
+        'assumptions': COMMON_ASSUME,
     },
 }
